@@ -66,6 +66,37 @@ def _is_negative(test: ast.expr) -> bool:
         (isinstance(test, ast.Compare) and len(test.ops) == 1 and isinstance(test.ops[0], _NEGATIVE_OPS))
 
 
+def or_chain_compact(node: ast.BoolOp) -> ast.expr | None:
+    """x == c1 or x == c2 -> x in (c1, c2) ; isinstance(x, A) or isinstance(x, B) -> isinstance(x, (A, B))   (x call-free)"""
+    if not (isinstance(node.op, ast.Or) and len(node.values) >= 2):
+        return None
+    vs = node.values
+    if all(isinstance(v, ast.Compare) and len(v.ops) == 1 and isinstance(v.ops[0], ast.Eq) and isinstance(v.comparators[0], ast.Constant) for v in vs):
+        left = vs[0].left  # type: ignore[attr-defined]
+        if _pure(left) and all(ast.dump(v.left) == ast.dump(left) for v in vs):  # type: ignore[attr-defined]
+            return ast.Compare(left, [ast.In()], [ast.Tuple([v.comparators[0] for v in vs], ast.Load())])  # type: ignore[attr-defined]
+    if all(isinstance(v, ast.Call) and isinstance(v.func, ast.Name) and v.func.id == "isinstance" and len(v.args) == 2 and not v.keywords for v in vs):
+        first = vs[0].args[0]  # type: ignore[attr-defined]
+        if _pure(first) and all(ast.dump(v.args[0]) == ast.dump(first) for v in vs) and all(_pure(v.args[1]) for v in vs):  # type: ignore[attr-defined]
+            classes: list[ast.expr] = []
+            for v in vs:
+                c = v.args[1]  # type: ignore[attr-defined]
+                classes.extend(c.elts if isinstance(c, ast.Tuple) else [c])
+            return ast.Call(ast.Name("isinstance", ast.Load()), [first, ast.Tuple(classes, ast.Load())], [])
+    return None
+
+
+def or_chain_expand(node: ast.expr) -> ast.expr | None:
+    """the reverse of or_chain_compact"""
+    if isinstance(node, ast.Compare) and len(node.ops) == 1 and isinstance(node.ops[0], ast.In) and isinstance(node.comparators[0], (ast.Tuple, ast.List)) \
+            and len(node.comparators[0].elts) >= 2 and all(isinstance(e, ast.Constant) for e in node.comparators[0].elts) and _pure(node.left):
+        return ast.BoolOp(ast.Or(), [ast.Compare(copy.deepcopy(node.left), [ast.Eq()], [e]) for e in node.comparators[0].elts])
+    if isinstance(node, ast.Call) and isinstance(node.func, ast.Name) and node.func.id == "isinstance" and len(node.args) == 2 and isinstance(node.args[1], ast.Tuple) \
+            and len(node.args[1].elts) >= 2 and _pure(node.args[0]):
+        return ast.BoolOp(ast.Or(), [ast.Call(ast.Name("isinstance", ast.Load()), [copy.deepcopy(node.args[0]), e], []) for e in node.args[1].elts])
+    return None
+
+
 class _Simplify(ast.NodeTransformer):
     """steps 1, 2, 5, 6, 7 (expression level and single statements)"""
 
@@ -109,6 +140,9 @@ class _Simplify(ast.NodeTransformer):
         for v in node.values:
             flat.extend(v.values if isinstance(v, ast.BoolOp) and type(v.op) is type(node.op) else [v])
         node.values = flat
+        compact = or_chain_compact(node)
+        if compact is not None:
+            return compact
         return node
 
     def visit_Compare(self, node: ast.Compare) -> ast.AST:
@@ -462,6 +496,7 @@ def toward_reference(fn: ast.FunctionDef, ref: ast.FunctionDef, signatures: dict
     if any(isinstance(n, ast.Return) and isinstance(n.value, ast.IfExp) for n in ast.walk(ref)):
         ref_ifs["<ifexp-return>"] = [ast.If(ast.Constant(True), [], [])]
     ref_text = {ast.unparse(n) for n in ast.walk(ref) if isinstance(n, (ast.Compare, ast.AugAssign, ast.Assign))}
+    ref_expr = {ast.unparse(n) for n in ast.walk(ref) if isinstance(n, (ast.BoolOp, ast.Compare, ast.Call))}
     ref_kw = {(n.func.id, k.arg) for n in ast.walk(ref) if isinstance(n, ast.Call) and isinstance(n.func, ast.Name) for k in n.keywords} | (keep_kw or set())
     # -- renamed locals: a new name takes the reference name under which most of its statements read as reference statements
     mine, theirs = _locals_of(fn) - _params_of(fn), _locals_of(ref) - _params_of(ref)
@@ -519,6 +554,11 @@ def toward_reference(fn: ast.FunctionDef, ref: ast.FunctionDef, signatures: dict
 
         def visit_Compare(self, node: ast.Compare) -> ast.AST:
             self.generic_visit(node)
+            if ast.unparse(node) not in ref_expr:
+                alt = or_chain_expand(node)
+                if alt is not None and _u(alt) in ref_expr:
+                    notes.append("membership -> or-chain")
+                    return alt
             if len(node.ops) == 1 and ast.unparse(node) not in ref_text:
                 op, l, r = node.ops[0], node.left, node.comparators[0]
                 if isinstance(op, (ast.In, ast.NotIn)) and isinstance(r, (ast.List, ast.Tuple)):
@@ -534,6 +574,15 @@ def toward_reference(fn: ast.FunctionDef, ref: ast.FunctionDef, signatures: dict
                         # the reference's orientation; for a comparison the reference does not have, the literal goes right as everywhere in it
                         notes.append("comparison orientation")
                         return cand
+            return node
+
+        def visit_BoolOp(self, node: ast.BoolOp) -> ast.AST:
+            self.generic_visit(node)
+            if ast.unparse(node) not in ref_expr:
+                alt = or_chain_compact(node)
+                if alt is not None and _u(alt) in ref_expr:
+                    notes.append("or-chain -> membership")
+                    return alt
             return node
 
         def visit_Assign(self, node: ast.Assign) -> ast.AST:
@@ -558,6 +607,11 @@ def toward_reference(fn: ast.FunctionDef, ref: ast.FunctionDef, signatures: dict
 
         def visit_Call(self, node: ast.Call) -> ast.AST:
             self.generic_visit(node)
+            if ast.unparse(node) not in ref_expr:
+                alt = or_chain_expand(node)
+                if alt is not None and _u(alt) in ref_expr:
+                    notes.append("membership -> or-chain")
+                    return alt
             if isinstance(node.func, ast.Name) and node.func.id in sig and node.keywords and not any(isinstance(a, ast.Starred) for a in node.args):
                 params = sig[node.func.id]
                 args, kws = list(node.args), list(node.keywords)
